@@ -1,18 +1,1806 @@
-//! C12 — not built yet.
+//! C12 — configuration files compose by union, with the last SOA winning.
+//!
+//! A fixed alphabet of 14 zone files (apexes `ex.`, `sub.ex.`, and the
+//! non-authoritative root) and 5 hosts files; every sequence of them up to a
+//! length bound is merged exactly as `resolved::fs::load_zone_configuration`
+//! does (`Zones::insert_merge` per zone file, `Hosts::merge` per hosts file,
+//! `insert_merge(hosts.into())` last) and every question of a fixed question
+//! set is answered by `Zones::resolve` and by the flat-list reference lookup
+//! (`refzone`) on the flat union the statement describes.  A differential check
+//! compares the merged state across order-equivalent permutations, and the
+//! real loader is run on generated files and directories.
+
 use crate::common::*;
-use serde_json::Value;
+use crate::refzone::*;
+use crate::util::*;
+use dns_types::hosts::types::Hosts;
+use dns_types::protocol::types::*;
+use dns_types::zones::types::{Zone, ZoneResult, Zones, SOA};
+use serde_json::{json, Value};
+use std::collections::{BTreeMap, BTreeSet, HashMap, HashSet};
+use std::net::{Ipv4Addr, Ipv6Addr};
+use std::panic::{catch_unwind, AssertUnwindSafe};
+use std::path::{Path, PathBuf};
 
-pub fn run(_ctx: &Ctx) -> i32 {
-    eprintln!("C12: check not built");
-    2
+const SLUG_WILD: &str = "merge-loses-wildcards-of-later-file";
+const SLUG_SOA: &str = "merge-keeps-both-soa-records";
+
+// =====================================================================
+// File alphabet: every file is a denotation rendered to text
+// =====================================================================
+
+#[derive(Clone, Debug)]
+enum RD {
+    A([u8; 4]),
+    Txt(&'static str),
+    Mx(u16, &'static str),
+    Ns(&'static str),
 }
 
-pub fn replay(_ctx: &Ctx, _v: &Value) -> i32 {
-    eprintln!("C12: check not built");
-    2
+#[derive(Clone, Debug)]
+struct RecSpec {
+    /// relative to the apex for authoritative files (`@` = apex), absolute for root files
+    owner: &'static str,
+    wildcard: bool,
+    ttl: u32,
+    rd: RD,
 }
 
-/// Entry point for `vcheck worker C12 <args...>` (child-process mode).
+#[derive(Clone, Debug)]
+struct SoaSpec {
+    mname: &'static str,
+    serial: u32,
+    minimum: u32,
+}
+
+#[derive(Clone, Debug)]
+struct ZoneFileSpec {
+    id: &'static str,
+    apex: &'static str,
+    soa: Option<SoaSpec>,
+    recs: Vec<RecSpec>,
+}
+
+fn rec(owner: &'static str, ttl: u32, rd: RD) -> RecSpec {
+    RecSpec { owner, wildcard: false, ttl, rd }
+}
+fn wrec(owner: &'static str, ttl: u32, rd: RD) -> RecSpec {
+    RecSpec { owner, wildcard: true, ttl, rd }
+}
+
+fn zone_alphabet() -> Vec<ZoneFileSpec> {
+    let soa1 = |m: &'static str| Some(SoaSpec { mname: m, serial: 1, minimum: 300 });
+    let soa2 = |m: &'static str| Some(SoaSpec { mname: m, serial: 2, minimum: 30 });
+    let a1 = || rec("www", 600, RD::A([10, 0, 0, 1]));
+    let a2 = || rec("www", 600, RD::A([10, 0, 0, 2]));
+    let a1t = || rec("www", 60, RD::A([10, 0, 0, 1]));
+    let txt = || rec("www", 600, RD::Txt("hello"));
+    let mx = || rec("@", 600, RD::Mx(10, "mail.elsewhere."));
+    let w = || wrec("@", 600, RD::A([10, 0, 0, 9]));
+    let ww = || wrec("www", 600, RD::A([10, 0, 0, 8]));
+    let deep = || rec("deep.www", 600, RD::A([10, 0, 0, 7]));
+    vec![
+        ZoneFileSpec { id: "E1", apex: "ex.", soa: soa1("ns1.ex."), recs: vec![a1(), txt()] },
+        ZoneFileSpec { id: "E2", apex: "ex.", soa: soa2("ns2.ex."), recs: vec![a1(), a2()] },
+        ZoneFileSpec { id: "E3", apex: "ex.", soa: soa1("ns1.ex."), recs: vec![a1t(), mx()] },
+        ZoneFileSpec { id: "E4", apex: "ex.", soa: soa2("ns2.ex."), recs: vec![a1t(), w()] },
+        ZoneFileSpec { id: "E5", apex: "ex.", soa: soa1("ns1.ex."), recs: vec![w(), ww()] },
+        ZoneFileSpec { id: "E6", apex: "ex.", soa: soa2("ns2.ex."), recs: vec![deep(), ww(), txt()] },
+        ZoneFileSpec { id: "E7", apex: "ex.", soa: soa1("ns1.ex."), recs: vec![rec("@", 600, RD::Ns("ns1.elsewhere."))] },
+        ZoneFileSpec { id: "E8", apex: "ex.", soa: soa2("ns2.ex."), recs: vec![w(), mx(), wrec("@", 600, RD::Txt("wild"))] },
+        ZoneFileSpec { id: "S1", apex: "sub.ex.", soa: soa1("ns1.sub.ex."), recs: vec![a1(), w()] },
+        ZoneFileSpec { id: "S2", apex: "sub.ex.", soa: soa2("ns2.sub.ex."), recs: vec![a2(), ww()] },
+        ZoneFileSpec { id: "S3", apex: "sub.ex.", soa: soa2("ns2.sub.ex."), recs: vec![a1t(), txt(), deep()] },
+        ZoneFileSpec {
+            id: "R1",
+            apex: ".",
+            soa: None,
+            recs: vec![rec("www.other.", 600, RD::A([10, 0, 0, 1])), rec("www.other.", 600, RD::Txt("hello"))],
+        },
+        ZoneFileSpec {
+            id: "R2",
+            apex: ".",
+            soa: None,
+            recs: vec![
+                rec("www.other.", 60, RD::A([10, 0, 0, 1])),
+                rec("www.other.", 600, RD::A([10, 0, 0, 2])),
+                wrec("other.", 600, RD::A([10, 0, 0, 9])),
+            ],
+        },
+        ZoneFileSpec {
+            id: "R3",
+            apex: ".",
+            soa: None,
+            recs: vec![
+                wrec("www.other.", 600, RD::A([10, 0, 0, 8])),
+                rec("deep.www.other.", 600, RD::A([10, 0, 0, 7])),
+                rec("www.ex.", 600, RD::A([10, 0, 0, 66])),
+                rec("other.", 600, RD::Mx(10, "mail.elsewhere.")),
+            ],
+        },
+    ]
+}
+
+fn render_rd(rd: &RD) -> String {
+    match rd {
+        RD::A(a) => format!("A {}", Ipv4Addr::from(*a)),
+        RD::Txt(t) => format!("TXT {t}"),
+        RD::Mx(p, x) => format!("MX {p} {x}"),
+        RD::Ns(n) => format!("NS {n}"),
+    }
+}
+
+fn rd_data(rd: &RD) -> RecordTypeWithData {
+    match rd {
+        RD::A(x) => a(*x),
+        RD::Txt(t) => txt(t.as_bytes()),
+        RD::Mx(p, x) => mx(*p, &dn(x)),
+        RD::Ns(n) => ns(&dn(n)),
+    }
+}
+
+fn render_zone_file(z: &ZoneFileSpec) -> String {
+    let mut s = String::new();
+    s.push_str(&format!("; file {}\n", z.id));
+    if let Some(soa) = &z.soa {
+        s.push_str(&format!("$ORIGIN {}\n", z.apex));
+        s.push_str(&format!(
+            "@ {} IN SOA {} admin.{} {} 3600 600 86400 {}\n",
+            soa.minimum, soa.mname, z.apex, soa.serial, soa.minimum
+        ));
+    }
+    for r in &z.recs {
+        let owner = match (r.wildcard, r.owner) {
+            (false, o) => o.to_string(),
+            (true, "@") => "*".to_string(),
+            (true, o) => format!("*.{o}"),
+        };
+        s.push_str(&format!("{owner} {} IN {}\n", r.ttl, render_rd(&r.rd)));
+    }
+    s
+}
+
+/// What a file means.
+#[derive(Clone, Debug)]
+struct ZoneFileDen {
+    apex: DomainName,
+    soa: Option<SOA>,
+    /// TTLs as the file's own SOA minimum leaves them
+    recs: Vec<FlatRec>,
+}
+
+fn soa_value(apex: &str, s: &SoaSpec) -> SOA {
+    SOA {
+        mname: dn(s.mname),
+        rname: dn(&format!("admin.{apex}")),
+        serial: s.serial,
+        refresh: 3600,
+        retry: 600,
+        expire: 86400,
+        minimum: s.minimum,
+    }
+}
+
+fn denote_zone_file(z: &ZoneFileSpec) -> ZoneFileDen {
+    let apex = dn(z.apex);
+    let soa = z.soa.as_ref().map(|s| soa_value(z.apex, s));
+    let recs = z
+        .recs
+        .iter()
+        .map(|r| {
+            let owner = if z.soa.is_some() {
+                if r.owner == "@" {
+                    apex.clone()
+                } else {
+                    dn(&format!("{}.{}", r.owner, z.apex))
+                }
+            } else {
+                dn(r.owner)
+            };
+            let ttl = match &z.soa {
+                Some(s) => r.ttl.max(s.minimum),
+                None => r.ttl,
+            };
+            FlatRec { owner, wildcard: r.wildcard, data: rd_data(&r.rd), ttl }
+        })
+        .collect();
+    ZoneFileDen { apex, soa, recs }
+}
+
+#[derive(Clone, Debug)]
+struct HostsFileSpec {
+    id: &'static str,
+    /// (address text, names) per line
+    lines: Vec<(&'static str, Vec<&'static str>)>,
+}
+
+fn hosts_alphabet() -> Vec<HostsFileSpec> {
+    vec![
+        HostsFileSpec { id: "H1", lines: vec![("10.1.0.1", vec!["host", "www.other"])] },
+        HostsFileSpec { id: "H2", lines: vec![("10.1.0.2", vec!["host"]), ("fd00::1", vec!["host"])] },
+        HostsFileSpec { id: "H3", lines: vec![("fd00::2", vec!["host", "www.other"]), ("10.1.0.3", vec!["only3"])] },
+        HostsFileSpec { id: "H4", lines: vec![("10.1.0.1", vec!["host"]), ("10.1.0.4", vec!["www.ex"])] },
+        HostsFileSpec { id: "H5", lines: vec![("fd00::1", vec!["HOST."]), ("10.1.0.5", vec!["host"]), ("10.1.0.6", vec!["host"])] },
+    ]
+}
+
+fn render_hosts_file(h: &HostsFileSpec) -> String {
+    let mut s = format!("# file {}\n", h.id);
+    for (a, names) in &h.lines {
+        s.push_str(a);
+        for n in names {
+            s.push(' ');
+            s.push_str(n);
+        }
+        s.push('\n');
+    }
+    s
+}
+
+/// (name, is_v6) -> address, in file order (the reference applies last-writer-wins).
+type HostsMap = BTreeMap<(DomainName, bool), RecordTypeWithData>;
+
+fn hosts_addr(text: &str) -> (bool, RecordTypeWithData) {
+    if text.contains(':') {
+        let a: Ipv6Addr = text.parse().expect("harness: hosts alphabet address");
+        (true, RecordTypeWithData::AAAA { address: a })
+    } else {
+        let a: Ipv4Addr = text.parse().expect("harness: hosts alphabet address");
+        (false, RecordTypeWithData::A { address: a })
+    }
+}
+
+fn apply_hosts_file(map: &mut HostsMap, h: &HostsFileSpec) {
+    for (addr, names) in &h.lines {
+        let (v6, data) = hosts_addr(addr);
+        for n in names {
+            let lower = n.to_ascii_lowercase();
+            let abs = if lower.ends_with('.') { lower } else { format!("{lower}.") };
+            map.insert((dn(&abs), v6), data.clone());
+        }
+    }
+}
+
+// =====================================================================
+// The alphabet, parsed once by the real parsers
+// =====================================================================
+
+struct Alphabet {
+    zspec: Vec<ZoneFileSpec>,
+    ztext: Vec<String>,
+    zden: Vec<ZoneFileDen>,
+    zparsed: Vec<Zone>,
+    hspec: Vec<HostsFileSpec>,
+    htext: Vec<String>,
+    hparsed: Vec<Hosts>,
+    questions: Vec<(DomainName, QueryType)>,
+    apexes: Vec<DomainName>,
+}
+
+const QTYPES: [QueryType; 8] = [
+    QueryType::Record(RecordType::A),
+    QueryType::Record(RecordType::AAAA),
+    QueryType::Record(RecordType::TXT),
+    QueryType::Record(RecordType::MX),
+    QueryType::Record(RecordType::SOA),
+    QueryType::Record(RecordType::NS),
+    QueryType::Record(RecordType::CNAME),
+    QueryType::Wildcard,
+];
+
+fn question_names() -> Vec<DomainName> {
+    let mut v: Vec<String> = Vec::new();
+    for apex in ["ex.", "sub.ex.", "other."] {
+        for rel in ["", "www.", "deep.www.", "x.www.", "x.deep.www.", "y.x.www.", "nothere.", "x.nothere.", "*.", "mail."] {
+            v.push(format!("{rel}{apex}"));
+        }
+    }
+    for n in [".", "host.", "only3.", "nohost.", "www.nohost."] {
+        v.push(n.to_string());
+    }
+    v.sort();
+    v.dedup();
+    v.iter().map(|s| dn(s)).collect()
+}
+
+fn build_alphabet() -> Result<Alphabet, String> {
+    let zspec = zone_alphabet();
+    let ztext: Vec<String> = zspec.iter().map(render_zone_file).collect();
+    let zden: Vec<ZoneFileDen> = zspec.iter().map(denote_zone_file).collect();
+    let mut zparsed = Vec::new();
+    for (i, t) in ztext.iter().enumerate() {
+        match catch_unwind(AssertUnwindSafe(|| Zone::deserialise(t))) {
+            Ok(Ok(z)) => zparsed.push(z),
+            Ok(Err(e)) => return Err(format!("zone file {} of the alphabet does not parse: {e:?}\n{t}", zspec[i].id)),
+            Err(_) => return Err(format!("zone file {} of the alphabet makes the parser panic", zspec[i].id)),
+        }
+    }
+    let hspec = hosts_alphabet();
+    let htext: Vec<String> = hspec.iter().map(render_hosts_file).collect();
+    let mut hparsed = Vec::new();
+    for (i, t) in htext.iter().enumerate() {
+        match catch_unwind(AssertUnwindSafe(|| Hosts::deserialise(t))) {
+            Ok(Ok(h)) => hparsed.push(h),
+            Ok(Err(e)) => return Err(format!("hosts file {} of the alphabet does not parse: {e:?}", hspec[i].id)),
+            Err(_) => return Err(format!("hosts file {} of the alphabet makes the parser panic", hspec[i].id)),
+        }
+    }
+    let mut questions = Vec::new();
+    for n in question_names() {
+        for qt in QTYPES {
+            questions.push((n.clone(), qt));
+        }
+    }
+    Ok(Alphabet {
+        zspec,
+        ztext,
+        zden,
+        zparsed,
+        hspec,
+        htext,
+        hparsed,
+        questions,
+        apexes: vec![dn("."), dn("ex."), dn("sub.ex.")],
+    })
+}
+
+// =====================================================================
+// Reference: the flat union the statement describes
+// =====================================================================
+
+#[derive(Clone, Debug, Default)]
+struct RefApex {
+    soa: Option<SOA>,
+    /// union incl. the single SOA record, duplicates removed
+    all: Vec<FlatRec>,
+    /// how many files contributed to this apex (hosts count as one contribution each)
+    contributors: u32,
+}
+
+#[derive(Clone, Debug)]
+struct RefConfig {
+    /// apex -> union; the root is always present
+    apexes: BTreeMap<DomainName, RefApex>,
+}
+
+fn ref_union_zone_dens(dens: &[&ZoneFileDen], hosts: Option<&HostsMap>, n_hosts_files: u32) -> RefConfig {
+    let mut apexes: BTreeMap<DomainName, RefApex> = BTreeMap::new();
+    apexes.insert(DomainName::root_domain(), RefApex::default());
+    let mut body: BTreeMap<DomainName, Vec<FlatRec>> = BTreeMap::new();
+    for d in dens {
+        let e = apexes.entry(d.apex.clone()).or_default();
+        e.contributors += 1;
+        if d.soa.is_some() {
+            e.soa = d.soa.clone();
+        }
+        let b = body.entry(d.apex.clone()).or_default();
+        for r in &d.recs {
+            if !b.contains(r) {
+                b.push(r.clone());
+            }
+        }
+    }
+    if let Some(hm) = hosts {
+        let root = DomainName::root_domain();
+        apexes.get_mut(&root).unwrap().contributors += n_hosts_files;
+        let b = body.entry(root).or_default();
+        for ((name, _v6), data) in hm {
+            let r = FlatRec { owner: name.clone(), wildcard: false, data: data.clone(), ttl: 5 };
+            if !b.contains(&r) {
+                b.push(r);
+            }
+        }
+    }
+    for (apex, e) in apexes.iter_mut() {
+        let mut all = Vec::new();
+        if let Some(soa) = &e.soa {
+            all.push(FlatRec { owner: apex.clone(), wildcard: false, data: soa.to_rdata(), ttl: soa.minimum });
+        }
+        if let Some(b) = body.get(apex) {
+            all.extend(b.iter().cloned());
+        }
+        e.all = all;
+    }
+    RefConfig { apexes }
+}
+
+fn ref_config(al: &Alphabet, zseq: &[u8], hseq: &[u8]) -> RefConfig {
+    let dens: Vec<&ZoneFileDen> = zseq.iter().map(|i| &al.zden[*i as usize]).collect();
+    let mut hm = HostsMap::new();
+    for h in hseq {
+        apply_hosts_file(&mut hm, &al.hspec[*h as usize]);
+    }
+    ref_union_zone_dens(&dens, Some(&hm), hseq.len() as u32)
+}
+
+fn show_flat(r: &FlatRec) -> String {
+    format!("{}{} {} {}", if r.wildcard { "*." } else { "" }, show_name(&r.owner), r.ttl, show_data(&r.data))
+}
+
+fn ref_dump(rc: &RefConfig) -> String {
+    let mut s = String::new();
+    for (apex, e) in &rc.apexes {
+        let mut lines: Vec<String> = e.all.iter().map(show_flat).collect();
+        lines.sort();
+        s.push_str(&format!("[{}] soa={:?}\n{}\n", show_name(apex), e.soa.as_ref().map(|x| x.serial), lines.join("\n")));
+    }
+    s
+}
+
+/// The apex (present in the configuration) that must answer `q`.
+fn ref_zone_for<'a>(rc: &'a RefConfig, q: &DomainName) -> (&'a DomainName, &'a RefApex) {
+    let mut best: Option<(&DomainName, &RefApex)> = None;
+    for (apex, e) in &rc.apexes {
+        if q.is_subdomain_of(apex) && best.map_or(true, |(b, _)| apex.labels.len() > b.labels.len()) {
+            best = Some((apex, e));
+        }
+    }
+    best.expect("root is always present")
+}
+
+fn ref_answer(rc: &RefConfig, q: &DomainName, qtype: QueryType) -> (DomainName, RefResult) {
+    let (apex, e) = ref_zone_for(rc, q);
+    let fz = FlatZone { apex: apex.clone(), soa: None, recs: Vec::new() };
+    let r = fz.resolve_with(&e.all, q, qtype).expect("name is under the chosen apex");
+    (apex.clone(), r)
+}
+
+// =====================================================================
+// Implementation side: merge exactly as load_zone_configuration does
+// =====================================================================
+
+struct Merged {
+    zones: Zones,
+    hosts: Hosts,
+}
+
+fn impl_merge(al: &Alphabet, zseq: &[u8], hseq: &[u8], ops: &mut u64) -> Result<Merged, ()> {
+    catch_unwind(AssertUnwindSafe(|| {
+        let mut n = 0u64;
+        let mut zones = Zones::new();
+        for i in zseq {
+            zones.insert_merge(al.zparsed[*i as usize].clone());
+            n += 1;
+        }
+        let mut hosts = Hosts::default();
+        for h in hseq {
+            hosts.merge(al.hparsed[*h as usize].clone());
+            n += 1;
+        }
+        let kept = hosts.clone();
+        zones.insert_merge(hosts.into());
+        n += 1;
+        (Merged { zones, hosts: kept }, n)
+    }))
+    .map(|(m, n)| {
+        *ops += n;
+        m
+    })
+    .map_err(|_| ())
+}
+
+fn zone_dump_lines(z: &Zone) -> (Vec<String>, Vec<String>) {
+    let mut ord = Vec::new();
+    for (n, zrs) in z.all_records() {
+        for zr in zrs {
+            ord.push(format!("{} {} {}", show_name(n), zr.ttl, show_data(&zr.rtype_with_data)));
+        }
+    }
+    ord.sort();
+    let mut wild = Vec::new();
+    for (n, zrs) in z.all_wildcard_records() {
+        for zr in zrs {
+            wild.push(format!("*.{} {} {}", show_name(n), zr.ttl, show_data(&zr.rtype_with_data)));
+        }
+    }
+    wild.sort();
+    (ord, wild)
+}
+
+/// Canonical (sorted) dump of the merged `Zones` over the apexes of the alphabet.
+fn impl_dump(al: &Alphabet, zones: &Zones) -> String {
+    let mut s = String::new();
+    for apex in &al.apexes {
+        match zones.get(apex) {
+            Some(z) if z.get_apex() == apex => {
+                let (ord, wild) = zone_dump_lines(z);
+                s.push_str(&format!(
+                    "[{}] soa={:?}\n{}\n{}\n",
+                    show_name(apex),
+                    z.get_soa().map(|x| x.serial),
+                    ord.join("\n"),
+                    wild.join("\n")
+                ));
+            }
+            _ => {}
+        }
+    }
+    s
+}
+
+fn hosts_dump(h: &Hosts) -> Vec<String> {
+    let mut v = Vec::new();
+    for (n, a) in &h.v4 {
+        v.push(format!("{} A {a}", show_name(n)));
+    }
+    for (n, a) in &h.v6 {
+        v.push(format!("{} AAAA {a}", show_name(n)));
+    }
+    v.sort();
+    v
+}
+
+fn hosts_ref_dump(hm: &HostsMap) -> Vec<String> {
+    let mut v: Vec<String> = hm.iter().map(|((n, _), d)| format!("{} {}", show_name(n), show_data(d))).collect();
+    v.sort();
+    v
+}
+
+// =====================================================================
+// Evaluation of one merged configuration against the reference
+// =====================================================================
+
+#[derive(Clone, Debug)]
+struct Mismatch {
+    clause: &'static str,
+    detail: String,
+    /// question index when the clause is about a lookup
+    question: Option<usize>,
+}
+
+fn rr_key(r: &ResourceRecord) -> String {
+    show_rr(r)
+}
+
+fn impl_rrs(r: &ZoneResult) -> Vec<ResourceRecord> {
+    match r {
+        ZoneResult::Answer { rrs } => rrs.clone(),
+        ZoneResult::CNAME { rr, .. } => vec![rr.clone()],
+        ZoneResult::Delegation { ns_rrs } => ns_rrs.clone(),
+        ZoneResult::NameError => vec![],
+    }
+}
+
+fn ref_rrs(r: &RefResult) -> Vec<ResourceRecord> {
+    match r {
+        RefResult::Answer(rrs) => rrs.clone(),
+        RefResult::Cname(rr) => vec![rr.clone()],
+        RefResult::Delegation(rrs) => rrs.clone(),
+        RefResult::NameError => vec![],
+    }
+}
+
+/// Was the reference answer synthesised from a wildcard set (or did the
+/// lookup end at a closest encloser without one)?
+fn via_closest_encloser(e: &RefApex, apex: &DomainName, q: &DomainName) -> bool {
+    !(q == apex || e.all.iter().any(|r| r.owner.is_subdomain_of(q)))
+}
+
+struct EvalStats {
+    lookups: u64,
+    wildcard_lookups: u64,
+    hist: BTreeMap<&'static str, u64>,
+}
+
+fn classify_lookup(
+    rc: &RefConfig,
+    earlier_soas: &BTreeMap<DomainName, Vec<SOA>>,
+    q: &DomainName,
+    qtype: QueryType,
+    want_apex: &DomainName,
+    want: &RefResult,
+    got: &ZoneResult,
+) -> &'static str {
+    let e = &rc.apexes[want_apex];
+    // only extra SOA records of earlier files?
+    let mut g: Vec<String> = impl_rrs(got).iter().map(rr_key).collect();
+    let mut w: Vec<String> = ref_rrs(want).iter().map(rr_key).collect();
+    g.sort();
+    w.sort();
+    let same_variant = matches!(
+        (got, want),
+        (ZoneResult::Answer { .. }, RefResult::Answer(_))
+            | (ZoneResult::CNAME { .. }, RefResult::Cname(_))
+            | (ZoneResult::Delegation { .. }, RefResult::Delegation(_))
+            | (ZoneResult::NameError, RefResult::NameError)
+    );
+    if same_variant && q == want_apex && w.iter().all(|x| g.contains(x)) && g.len() > w.len() {
+        let extra: Vec<&String> = g.iter().filter(|x| !w.contains(x)).collect();
+        let olds: Vec<String> = earlier_soas
+            .get(want_apex)
+            .map(|v| v.iter().map(|s| rr_key(&s.to_rr(want_apex))).collect())
+            .unwrap_or_default();
+        if extra.iter().all(|x| olds.contains(x)) {
+            return "soa-record-set";
+        }
+    }
+    let _ = qtype;
+    if via_closest_encloser(e, want_apex, q) {
+        return "wildcard-union";
+    }
+    if want_apex.is_root() {
+        let hosts_like = |s: &String| s.contains(" 5 IN A ") || s.contains(" 5 IN AAAA ");
+        let diff: Vec<&String> = g.iter().filter(|x| !w.contains(x)).chain(w.iter().filter(|x| !g.contains(x))).collect();
+        if !diff.is_empty() && diff.iter().all(|x| hosts_like(x)) {
+            return "hosts-override";
+        }
+    }
+    "record-union"
+}
+
+/// Compare every question and the SOA of every apex.  `earlier_soas`: per
+/// apex the SOAs of SOA-bearing files other than the last one.
+fn evaluate(
+    questions: &[(DomainName, QueryType)],
+    zones: &Zones,
+    rc: &RefConfig,
+    earlier_soas: &BTreeMap<DomainName, Vec<SOA>>,
+    stats: &mut EvalStats,
+) -> Vec<Mismatch> {
+    let mut out = Vec::new();
+    let res = catch_unwind(AssertUnwindSafe(|| {
+        let mut out = Vec::new();
+        let mut lookups = 0u64;
+        let mut wl = 0u64;
+        let mut hist: BTreeMap<&'static str, u64> = BTreeMap::new();
+        for (apex, e) in &rc.apexes {
+            match zones.get(apex) {
+                Some(z) if z.get_apex() == apex => {
+                    if z.get_soa() != e.soa.as_ref() {
+                        out.push(Mismatch {
+                            clause: "soa-last-wins",
+                            detail: format!(
+                                "zone {} has SOA serial {:?}, expected that of the last file supplying one: {:?}",
+                                show_name(apex),
+                                z.get_soa().map(|s| s.serial),
+                                e.soa.as_ref().map(|s| s.serial)
+                            ),
+                            question: None,
+                        });
+                    }
+                }
+                _ => out.push(Mismatch {
+                    clause: "zone-present",
+                    detail: format!("no zone with apex {} in the merged configuration", show_name(apex)),
+                    question: None,
+                }),
+            }
+        }
+        for (qi, (q, qtype)) in questions.iter().enumerate() {
+            lookups += 1;
+            let (want_apex, want) = ref_answer(rc, q, *qtype);
+            let class = match &want {
+                RefResult::NameError => "name-error",
+                RefResult::Delegation(_) => "referral",
+                RefResult::Cname(_) => "cname",
+                RefResult::Answer(rrs) => {
+                    let wild = via_closest_encloser(&rc.apexes[&want_apex], &want_apex, q);
+                    match (wild, rrs.is_empty()) {
+                        (true, false) => "wildcard-answer",
+                        (true, true) => "wildcard-nodata",
+                        (false, false) => "answer",
+                        (false, true) => "nodata",
+                    }
+                }
+            };
+            *hist.entry(class).or_insert(0) += 1;
+            if class.starts_with("wildcard") {
+                wl += 1;
+            }
+            match zones.resolve(q, *qtype) {
+                None => out.push(Mismatch {
+                    clause: "zone-present",
+                    detail: format!("{} {}: no zone answers", show_name(q), qtype),
+                    question: Some(qi),
+                }),
+                Some((z, got)) => {
+                    if *z.get_apex() != want_apex {
+                        out.push(Mismatch {
+                            clause: "apex-selection",
+                            detail: format!(
+                                "{} {} answered by zone {} instead of {}",
+                                show_name(q),
+                                qtype,
+                                show_name(z.get_apex()),
+                                show_name(&want_apex)
+                            ),
+                            question: Some(qi),
+                        });
+                    } else if !same_result(&got, &want) {
+                        out.push(Mismatch {
+                            clause: classify_lookup(rc, earlier_soas, q, *qtype, &want_apex, &want, &got),
+                            detail: format!(
+                                "{} {} -> implementation {} but union gives {}",
+                                show_name(q),
+                                qtype,
+                                show_zone_result(&got),
+                                show_ref(&want)
+                            ),
+                            question: Some(qi),
+                        });
+                    }
+                }
+            }
+        }
+        (out, lookups, wl, hist)
+    }));
+    match res {
+        Ok((o, l, w, h)) => {
+            out = o;
+            stats.lookups += l;
+            stats.wildcard_lookups += w;
+            for (k, v) in h {
+                *stats.hist.entry(k).or_insert(0) += v;
+            }
+        }
+        Err(_) => out.push(Mismatch { clause: "panic", detail: "a lookup on the merged configuration panicked".into(), question: None }),
+    }
+    out
+}
+
+fn earlier_soas_of(al: &Alphabet, zseq: &[u8]) -> BTreeMap<DomainName, Vec<SOA>> {
+    let mut per: BTreeMap<DomainName, Vec<SOA>> = BTreeMap::new();
+    for i in zseq {
+        let d = &al.zden[*i as usize];
+        if let Some(s) = &d.soa {
+            per.entry(d.apex.clone()).or_default().push(s.clone());
+        }
+    }
+    for v in per.values_mut() {
+        let last = v.pop();
+        if let Some(last) = last {
+            v.retain(|s| *s != last);
+        }
+    }
+    per
+}
+
+/// Merge + evaluate one configuration given as sequences of file indices.
+fn run_config(al: &Alphabet, zseq: &[u8], hseq: &[u8], stats: &mut EvalStats, ops: &mut u64) -> Vec<Mismatch> {
+    let rc = ref_config(al, zseq, hseq);
+    let Ok(m) = impl_merge(al, zseq, hseq, ops) else {
+        return vec![Mismatch { clause: "panic", detail: "merging panicked".into(), question: None }];
+    };
+    let mut out = Vec::new();
+    // Hosts::merge against last-writer-wins
+    let mut hm = HostsMap::new();
+    for h in hseq {
+        apply_hosts_file(&mut hm, &al.hspec[*h as usize]);
+    }
+    if hosts_dump(&m.hosts) != hosts_ref_dump(&hm) {
+        out.push(Mismatch {
+            clause: "hosts-override",
+            detail: format!("Hosts::merge gives {:?}, last writer per (name, family) gives {:?}", hosts_dump(&m.hosts), hosts_ref_dump(&hm)),
+            question: None,
+        });
+    }
+    out.extend(evaluate(&al.questions, &m.zones, &rc, &earlier_soas_of(al, zseq), stats));
+    out
+}
+
+// ---- narrow predicates of the two expected defects, on a shrunk witness
+
+fn slug_for(al: &Alphabet, clause: &str, zseq: &[u8], hseq: &[u8]) -> Option<&'static str> {
+    if zseq.len() != 2 || !hseq.is_empty() {
+        return None;
+    }
+    let (fa, fb) = (&al.zden[zseq[0] as usize], &al.zden[zseq[1] as usize]);
+    if fa.apex != fb.apex {
+        return None;
+    }
+    let mut stats = EvalStats { lookups: 0, wildcard_lookups: 0, hist: BTreeMap::new() };
+    let mut ops = 0;
+    let Ok(m) = impl_merge(al, zseq, hseq, &mut ops) else { return None };
+    match clause {
+        "soa-record-set" => {
+            // two files of one apex with different SOAs; the apex answers SOA with both
+            let (Some(sa), Some(sb)) = (&fa.soa, &fb.soa) else { return None };
+            if sa == sb {
+                return None;
+            }
+            let got = m.zones.resolve(&fa.apex, QueryType::Record(RecordType::SOA))?.1;
+            let mut g: Vec<String> = impl_rrs(&got).iter().map(rr_key).collect();
+            let mut w = vec![rr_key(&sa.to_rr(&fa.apex)), rr_key(&sb.to_rr(&fa.apex))];
+            g.sort();
+            w.sort();
+            if g == w {
+                Some(SLUG_SOA)
+            } else {
+                None
+            }
+        }
+        "wildcard-union" | "permutation-differential" => {
+            // nodes N where the later file has a wildcard set and the earlier
+            // file has the node but no wildcard set
+            let lost: Vec<&FlatRec> = fb
+                .recs
+                .iter()
+                .filter(|r| {
+                    r.wildcard
+                        && !fa.recs.iter().any(|x| x.wildcard && x.owner == r.owner)
+                        && (r.owner == fa.apex || fa.recs.iter().any(|x| x.owner.is_subdomain_of(&r.owner)))
+                })
+                .collect();
+            if lost.is_empty() {
+                return None;
+            }
+            // the implementation must equal the union minus exactly those records, everywhere
+            let mut rc = ref_union_zone_dens(&[fa, fb], None, 0);
+            for e in rc.apexes.values_mut() {
+                e.all.retain(|r| !lost.iter().any(|l| *l == r));
+            }
+            let rest = evaluate(&al.questions, &m.zones, &rc, &earlier_soas_of(al, zseq), &mut stats);
+            if rest.iter().all(|x| x.clause == "soa-record-set") {
+                Some(SLUG_WILD)
+            } else {
+                None
+            }
+        }
+        _ => None,
+    }
+}
+
+/// Drop files while the same clause still fails.
+fn shrink_config(al: &Alphabet, clause: &str, zseq: &[u8], hseq: &[u8]) -> (Vec<u8>, Vec<u8>) {
+    let mut z = zseq.to_vec();
+    let mut h = hseq.to_vec();
+    let fails = |z: &[u8], h: &[u8]| {
+        let mut st = EvalStats { lookups: 0, wildcard_lookups: 0, hist: BTreeMap::new() };
+        let mut ops = 0;
+        run_config(al, z, h, &mut st, &mut ops).iter().any(|m| m.clause == clause)
+    };
+    let mut i = 0;
+    while i < h.len() {
+        let mut c = h.clone();
+        c.remove(i);
+        if fails(&z, &c) {
+            h = c;
+        } else {
+            i += 1;
+        }
+    }
+    let mut i = 0;
+    while i < z.len() {
+        let mut c = z.clone();
+        c.remove(i);
+        if fails(&c, &h) {
+            z = c;
+        } else {
+            i += 1;
+        }
+    }
+    (z, h)
+}
+
+fn seq_ids(al: &Alphabet, zseq: &[u8], hseq: &[u8]) -> String {
+    let z: Vec<&str> = zseq.iter().map(|i| al.zspec[*i as usize].id).collect();
+    let h: Vec<&str> = hseq.iter().map(|i| al.hspec[*i as usize].id).collect();
+    format!("zone files [{}] hosts files [{}]", z.join(" "), h.join(" "))
+}
+
+fn config_replay(al: &Alphabet, zseq: &[u8], hseq: &[u8]) -> Value {
+    json!({
+        "kind": "merge",
+        "zone_files": zseq.iter().map(|i| json!({"id": al.zspec[*i as usize].id, "text": al.ztext[*i as usize]})).collect::<Vec<_>>(),
+        "hosts_files": hseq.iter().map(|i| json!({"id": al.hspec[*i as usize].id, "text": al.htext[*i as usize]})).collect::<Vec<_>>(),
+    })
+}
+
+// =====================================================================
+// Violation collection (k smallest witnesses per clause and slug)
+// =====================================================================
+
+const KEEP: usize = 3;
+
+#[derive(Default)]
+struct Keep {
+    kept: BTreeMap<(String, Option<&'static str>), Vec<(usize, String, String, Value)>>,
+    counts: BTreeMap<String, u64>,
+}
+
+impl Keep {
+    fn count(&mut self, clause: &str, slug: Option<&'static str>, n: u64) {
+        *self.counts.entry(format!("{}|{}", clause, slug.unwrap_or(""))).or_insert(0) += n;
+    }
+    fn wants(&self, clause: &str, slug: Option<&'static str>, size: usize) -> bool {
+        match self.kept.get(&(clause.to_string(), slug)) {
+            None => true,
+            Some(v) => v.len() < KEEP || v.last().map_or(true, |w| size < w.0),
+        }
+    }
+    fn add(&mut self, clause: &str, slug: Option<&'static str>, size: usize, ids: String, summary: String, replay: Value) {
+        let v = self.kept.entry((clause.to_string(), slug)).or_default();
+        if v.iter().any(|w| w.1 == ids) {
+            return;
+        }
+        v.push((size, ids, summary, replay));
+        v.sort_by(|a, b| (a.0, &a.1).cmp(&(b.0, &b.1)));
+        v.truncate(KEEP);
+    }
+    fn merge(&mut self, o: Keep) {
+        for (k, n) in o.counts {
+            *self.counts.entry(k).or_insert(0) += n;
+        }
+        for ((c, s), v) in o.kept {
+            for (size, ids, summary, replay) in v {
+                self.add(&c, s, size, ids, summary, replay);
+            }
+        }
+    }
+    fn into_violations(self) -> Vec<Violation> {
+        let mut groups: Vec<_> = self.kept.into_iter().collect();
+        groups.sort_by_key(|((c, s), _)| (s.is_some(), c.clone()));
+        let mut out = Vec::new();
+        for ((clause, slug), v) in groups {
+            for (_, _, summary, replay) in v {
+                out.push(Violation { clause: clause.clone(), summary, replay, slug });
+            }
+        }
+        out
+    }
+}
+
+/// Slugs of all ordered same-apex pairs, computed on the 2-file configuration
+/// itself (that *is* the minimal witness).
+type PairTable = HashMap<(String, u8, u8), Option<&'static str>>;
+
+fn pair_table(al: &Alphabet) -> PairTable {
+    let mut t = PairTable::new();
+    let n = al.zspec.len() as u8;
+    for a in 0..n {
+        for b in 0..n {
+            if al.zden[a as usize].apex != al.zden[b as usize].apex {
+                continue;
+            }
+            let mut st = EvalStats { lookups: 0, wildcard_lookups: 0, hist: BTreeMap::new() };
+            let mut ops = 0;
+            let ms = run_config(al, &[a, b], &[], &mut st, &mut ops);
+            let clauses: BTreeSet<&'static str> = ms.iter().map(|m| m.clause).collect();
+            for c in clauses {
+                t.insert((c.to_string(), a, b), slug_for(al, c, &[a, b], &[]));
+            }
+        }
+    }
+    t
+}
+
+/// A slug that some ordered pair of the sequence (same apex as the failing
+/// question's zone is not required: pairs are per apex by construction) carries for this clause.
+fn attributed_slug(pt: &PairTable, clause: &str, zseq: &[u8]) -> Option<&'static str> {
+    for i in 0..zseq.len() {
+        for j in (i + 1)..zseq.len() {
+            if let Some(Some(s)) = pt.get(&(clause.to_string(), zseq[i], zseq[j])) {
+                return Some(s);
+            }
+        }
+    }
+    None
+}
+
+#[derive(Default)]
+struct Acc {
+    configs: u64,
+    nontrivial: u64,
+    ops: u64,
+    lookups: u64,
+    wildcard_lookups: u64,
+    hist: BTreeMap<&'static str, u64>,
+    keep: Keep,
+    samples: Vec<Value>,
+}
+
+fn handle_config(al: &Alphabet, pt: &PairTable, acc: &mut Acc, zseq: &[u8], hseq: &[u8]) {
+    let mut st = EvalStats { lookups: 0, wildcard_lookups: 0, hist: BTreeMap::new() };
+    let ms = run_config(al, zseq, hseq, &mut st, &mut acc.ops);
+    acc.configs += 1;
+    acc.lookups += st.lookups;
+    acc.wildcard_lookups += st.wildcard_lookups;
+    for (k, v) in st.hist {
+        *acc.hist.entry(k).or_insert(0) += v;
+    }
+    // a real merge happened: two files contributed to one apex
+    let mut per_apex: BTreeMap<&DomainName, u32> = BTreeMap::new();
+    for i in zseq {
+        *per_apex.entry(&al.zden[*i as usize].apex).or_insert(0) += 1;
+    }
+    let root = DomainName::root_domain();
+    *per_apex.entry(&root).or_insert(0) += hseq.len() as u32;
+    if per_apex.values().any(|n| *n >= 2) {
+        acc.nontrivial += 1;
+    }
+    if ms.is_empty() {
+        if acc.samples.len() < 2 && acc.configs % 997 == 5 {
+            acc.samples.push(json!({"configuration": seq_ids(al, zseq, hseq), "questions": al.questions.len(), "result": "all answers equal the union"}));
+        }
+        return;
+    }
+    let mut by_clause: BTreeMap<&'static str, Vec<&Mismatch>> = BTreeMap::new();
+    for m in &ms {
+        by_clause.entry(m.clause).or_default().push(m);
+    }
+    let size = zseq.len() + hseq.len();
+    for (clause, list) in by_clause {
+        let guess = attributed_slug(pt, clause, zseq);
+        if !acc.keep.wants(clause, guess, size) {
+            acc.keep.count(clause, guess, 1);
+            continue;
+        }
+        let (z, h) = shrink_config(al, clause, zseq, hseq);
+        let slug = slug_for(al, clause, &z, &h);
+        acc.keep.count(clause, slug, 1);
+        let mut st2 = EvalStats { lookups: 0, wildcard_lookups: 0, hist: BTreeMap::new() };
+        let mut ops = 0;
+        let small = run_config(al, &z, &h, &mut st2, &mut ops);
+        let first = small.iter().find(|m| m.clause == clause).map(|m| m.detail.clone()).unwrap_or_else(|| list[0].detail.clone());
+        acc.keep.add(
+            clause,
+            slug,
+            z.len() + h.len(),
+            seq_ids(al, &z, &h),
+            format!("{}: {}", seq_ids(al, &z, &h), first),
+            config_replay(al, &z, &h),
+        );
+    }
+}
+
+fn merge_acc(total: &mut Acc, p: Acc) {
+    total.configs += p.configs;
+    total.nontrivial += p.nontrivial;
+    total.ops += p.ops;
+    total.lookups += p.lookups;
+    total.wildcard_lookups += p.wildcard_lookups;
+    for (k, v) in p.hist {
+        *total.hist.entry(k).or_insert(0) += v;
+    }
+    total.keep.merge(p.keep);
+    for s in p.samples {
+        if total.samples.len() < 4 {
+            total.samples.push(s);
+        }
+    }
+}
+
+fn all_sequences(n: u8, max_len: usize) -> Vec<Vec<u8>> {
+    let mut out: Vec<Vec<u8>> = vec![vec![]];
+    let mut level: Vec<Vec<u8>> = vec![vec![]];
+    for _ in 0..max_len {
+        let mut next = Vec::with_capacity(level.len() * n as usize);
+        for l in &level {
+            for i in 0..n {
+                let mut v = l.clone();
+                v.push(i);
+                next.push(v);
+            }
+        }
+        out.extend(next.iter().cloned());
+        level = next;
+    }
+    out
+}
+
+/// Order-equivalence class of a zone-file sequence: per authoritative apex
+/// the ordered list of its files, plus the sorted multiset of SOA-less files.
+fn class_key(al: &Alphabet, zseq: &[u8]) -> Vec<u8> {
+    let mut per: BTreeMap<&DomainName, Vec<u8>> = BTreeMap::new();
+    let mut free: Vec<u8> = Vec::new();
+    for i in zseq {
+        let d = &al.zden[*i as usize];
+        if d.soa.is_some() {
+            per.entry(&d.apex).or_default().push(*i);
+        } else {
+            free.push(*i);
+        }
+    }
+    free.sort();
+    let mut key = Vec::new();
+    for (_, v) in per {
+        key.extend(v);
+        key.push(255);
+    }
+    key.push(254);
+    key.extend(free);
+    key
+}
+
+struct ZState {
+    rep: u32,
+    members: u64,
+}
+
+// =====================================================================
+// Loader level
+// =====================================================================
+
+struct LoaderContents {
+    ztext: Vec<String>,
+    zden: Vec<ZoneFileDen>,
+    hspec: Vec<HostsFileSpec>,
+    htext: Vec<String>,
+    questions: Vec<(DomainName, QueryType)>,
+}
+
+fn loader_contents() -> LoaderContents {
+    let a_rec = [[10, 2, 0, 1], [10, 2, 0, 2], [10, 2, 0, 3], [10, 2, 0, 4]];
+    let owners = ["f1", "f2", "f3", "f4"];
+    let mut zspecs = Vec::new();
+    for i in 0..4usize {
+        zspecs.push(ZoneFileSpec {
+            id: ["L1", "L2", "L3", "L4"][i],
+            apex: "ld.",
+            soa: Some(SoaSpec { mname: "ns.ld.", serial: 11 + i as u32, minimum: 60 }),
+            recs: vec![rec(owners[i], 600, RD::A(a_rec[i])), rec("www", 600, RD::A([10, 2, 0, 9]))],
+        });
+    }
+    let hspec = vec![
+        HostsFileSpec { id: "LH1", lines: vec![("10.3.0.1", vec!["host", "h1"])] },
+        HostsFileSpec { id: "LH2", lines: vec![("10.3.0.2", vec!["host", "h2"]), ("fd00::32", vec!["host"])] },
+        HostsFileSpec { id: "LH3", lines: vec![("10.3.0.3", vec!["host", "h3"])] },
+        HostsFileSpec { id: "LH4", lines: vec![("10.3.0.4", vec!["host", "h4"]), ("fd00::34", vec!["host"])] },
+    ];
+    let mut questions = Vec::new();
+    for n in ["ld.", "f1.ld.", "f2.ld.", "f3.ld.", "f4.ld.", "www.ld.", "nothere.ld.", "host.", "h1.", "h2.", "h3.", "h4.", "nohost."] {
+        for qt in QTYPES {
+            questions.push((dn(n), qt));
+        }
+    }
+    LoaderContents {
+        ztext: zspecs.iter().map(render_zone_file).collect(),
+        zden: zspecs.iter().map(denote_zone_file).collect(),
+        htext: hspec.iter().map(render_hosts_file).collect(),
+        hspec,
+        questions,
+    }
+}
+
+#[derive(Clone, Debug)]
+struct LoaderCase {
+    mode: &'static str,
+    names: &'static [&'static str; 4],
+    /// content indices passed as explicit files, in this order (also creation order)
+    files: Vec<usize>,
+    /// directories; each lists content indices in creation order
+    dirs: Vec<Vec<usize>>,
+}
+
+const NAMES_DESIGN: [&str; 4] = ["10", "2", "a", "B"];
+const NAMES_PLAIN: [&str; 4] = ["a1", "a2", "a3", "a4"];
+
+fn permutations(items: &[usize]) -> Vec<Vec<usize>> {
+    if items.len() <= 1 {
+        return vec![items.to_vec()];
+    }
+    let mut out = Vec::new();
+    for i in 0..items.len() {
+        let mut rest = items.to_vec();
+        let x = rest.remove(i);
+        for mut p in permutations(&rest) {
+            p.insert(0, x);
+            out.push(p);
+        }
+    }
+    out
+}
+
+fn loader_cases() -> Vec<LoaderCase> {
+    let mut v = Vec::new();
+    for names in [&NAMES_DESIGN, &NAMES_PLAIN] {
+        for mask in 1u32..16 {
+            let subset: Vec<usize> = (0..4).filter(|i| mask & (1 << i) != 0).collect();
+            for p in permutations(&subset) {
+                v.push(LoaderCase { mode: "directory", names, files: vec![], dirs: vec![p.clone()] });
+                if std::ptr::eq(names, &NAMES_DESIGN) {
+                    v.push(LoaderCase { mode: "files", names, files: p.clone(), dirs: vec![] });
+                }
+            }
+        }
+    }
+    for p in permutations(&[0, 1, 2, 3]) {
+        for j in 1..=3 {
+            v.push(LoaderCase { mode: "files+directory", names: &NAMES_DESIGN, files: p[..j].to_vec(), dirs: vec![p[j..].to_vec()] });
+        }
+        v.push(LoaderCase { mode: "two-directories", names: &NAMES_DESIGN, files: vec![], dirs: vec![p[..2].to_vec(), p[2..].to_vec()] });
+    }
+    v
+}
+
+fn sorted_by_name(names: &[&str; 4], idx: &[usize]) -> Vec<usize> {
+    let mut v = idx.to_vec();
+    v.sort_by(|a, b| names[*a].as_bytes().cmp(names[*b].as_bytes()));
+    v
+}
+
+/// Acceptable application orders (content indices).
+fn acceptable_orders(c: &LoaderCase) -> Vec<Vec<usize>> {
+    let dirs: Vec<Vec<usize>> = c.dirs.iter().map(|d| sorted_by_name(c.names, d)).collect();
+    let mut parts: Vec<Vec<usize>> = Vec::new();
+    if !c.files.is_empty() {
+        parts.push(c.files.clone());
+    }
+    parts.extend(dirs);
+    // the statement fixes the order inside a directory (and we take the order of
+    // explicitly listed files as given); the order *between* groups is left open
+    let ids: Vec<usize> = (0..parts.len()).collect();
+    let mut out: Vec<Vec<usize>> = Vec::new();
+    for p in permutations(&ids) {
+        let o: Vec<usize> = p.iter().flat_map(|i| parts[*i].clone()).collect();
+        if !out.contains(&o) {
+            out.push(o);
+        }
+    }
+    out
+}
+
+struct LoaderOutcome {
+    mismatches: Vec<Mismatch>,
+    lookups: u64,
+    raw_order_differs: bool,
+    load_failed: bool,
+}
+
+fn run_loader_case(lc: &LoaderContents, c: &LoaderCase, root: &Path, serial: usize, rt: &tokio::runtime::Runtime) -> Result<LoaderOutcome, String> {
+    let base = root.join(format!("case{serial}"));
+    std::fs::create_dir_all(&base).map_err(|e| format!("mkdir {}: {e}", base.display()))?;
+    let mut zfiles = Vec::new();
+    let mut hfiles = Vec::new();
+    let mut zdirs = Vec::new();
+    let mut hdirs = Vec::new();
+    let mut raw_order_differs = false;
+    let write = |p: &Path, t: &str| std::fs::write(p, t).map_err(|e| format!("write {}: {e}", p.display()));
+    let fdir = base.join("listed");
+    std::fs::create_dir_all(&fdir).map_err(|e| e.to_string())?;
+    for i in &c.files {
+        let zp = fdir.join(format!("{}.zone", c.names[*i]));
+        write(&zp, &lc.ztext[*i])?;
+        zfiles.push(zp);
+        let hp = fdir.join(format!("{}.hosts", c.names[*i]));
+        write(&hp, &lc.htext[*i])?;
+        hfiles.push(hp);
+    }
+    for (k, d) in c.dirs.iter().enumerate() {
+        let zd = base.join(format!("zones{k}"));
+        let hd = base.join(format!("hosts{k}"));
+        std::fs::create_dir_all(&zd).map_err(|e| e.to_string())?;
+        std::fs::create_dir_all(&hd).map_err(|e| e.to_string())?;
+        for i in d {
+            write(&zd.join(format!("{}.zone", c.names[*i])), &lc.ztext[*i])?;
+            write(&hd.join(format!("{}.hosts", c.names[*i])), &lc.htext[*i])?;
+        }
+        for dir in [&zd, &hd] {
+            let raw: Vec<String> = std::fs::read_dir(dir)
+                .map_err(|e| e.to_string())?
+                .filter_map(|e| e.ok())
+                .map(|e| e.file_name().to_string_lossy().to_string())
+                .collect();
+            let mut sorted = raw.clone();
+            sorted.sort();
+            if raw != sorted {
+                raw_order_differs = true;
+            }
+        }
+        zdirs.push(zd);
+        hdirs.push(hd);
+    }
+    let loaded = catch_unwind(AssertUnwindSafe(|| {
+        rt.block_on(resolved::fs::load_zone_configuration(&hfiles, &hdirs, &zfiles, &zdirs))
+    }));
+    let _ = std::fs::remove_dir_all(&base);
+    let zones = match loaded {
+        Err(_) => {
+            return Ok(LoaderOutcome {
+                mismatches: vec![Mismatch { clause: "panic", detail: "load_zone_configuration panicked".into(), question: None }],
+                lookups: 0,
+                raw_order_differs,
+                load_failed: true,
+            })
+        }
+        Ok(None) => {
+            return Ok(LoaderOutcome {
+                mismatches: vec![Mismatch { clause: "loader-rejects-valid-files", detail: "load_zone_configuration returned None".into(), question: None }],
+                lookups: 0,
+                raw_order_differs,
+                load_failed: true,
+            })
+        }
+        Ok(Some(z)) => z,
+    };
+    let mut best: Option<(Vec<Mismatch>, u64)> = None;
+    for order in acceptable_orders(c) {
+        let dens: Vec<&ZoneFileDen> = order.iter().map(|i| &lc.zden[*i]).collect();
+        let mut hm = HostsMap::new();
+        for i in &order {
+            apply_hosts_file(&mut hm, &lc.hspec[*i]);
+        }
+        let rc = ref_union_zone_dens(&dens, Some(&hm), order.len() as u32);
+        let mut earlier: BTreeMap<DomainName, Vec<SOA>> = BTreeMap::new();
+        let mut soas: Vec<SOA> = dens.iter().filter_map(|d| d.soa.clone()).collect();
+        let last = soas.pop();
+        if let Some(last) = last {
+            soas.retain(|s| *s != last);
+        }
+        earlier.insert(dn("ld."), soas);
+        let mut st = EvalStats { lookups: 0, wildcard_lookups: 0, hist: BTreeMap::new() };
+        let ms = evaluate(&lc.questions, &zones, &rc, &earlier, &mut st);
+        // an order is "matched" when the last-writer observations agree; prefer fewer mismatches
+        let score = ms.len();
+        if best.as_ref().map_or(true, |(b, _)| score < b.len()) {
+            best = Some((ms, st.lookups));
+        }
+    }
+    let (mismatches, lookups) = best.unwrap_or((vec![], 0));
+    Ok(LoaderOutcome { mismatches, lookups, raw_order_differs, load_failed: false })
+}
+
+fn loader_case_value(c: &LoaderCase) -> Value {
+    json!({
+        "kind": "loader",
+        "mode": c.mode,
+        "names": c.names,
+        "files": c.files,
+        "dirs": c.dirs,
+    })
+}
+
+fn describe_loader_case(c: &LoaderCase) -> String {
+    let nm = |v: &Vec<usize>| v.iter().map(|i| c.names[*i]).collect::<Vec<_>>().join(",");
+    format!(
+        "{}: listed files [{}] directories (creation order) {:?}",
+        c.mode,
+        nm(&c.files),
+        c.dirs.iter().map(nm).collect::<Vec<_>>()
+    )
+}
+
+fn loader_clause(m: &Mismatch) -> (String, Option<&'static str>) {
+    match m.clause {
+        // the only difference is extra SOA records of earlier files (classify_lookup checked that)
+        "soa-record-set" => ("loader:soa-record-set".into(), Some(SLUG_SOA)),
+        "soa-last-wins" => ("loader:order(last SOA)".into(), None),
+        "hosts-override" => ("loader:order(last hosts entry)".into(), None),
+        other => (format!("loader:{other}"), None),
+    }
+}
+
+// =====================================================================
+// Entry points
+// =====================================================================
+
+fn fnv_str(s: &str) -> u64 {
+    fnv64(s.as_bytes())
+}
+
+pub fn run(ctx: &Ctx) -> i32 {
+    let al = match build_alphabet() {
+        Ok(a) => a,
+        Err(e) => {
+            eprintln!("C12: machinery error: {e}");
+            return 2;
+        }
+    };
+    let cap = ctx.tier.pick(40.0, 520.0);
+    let (max_z, max_h) = ctx.tier.pick((3usize, 2usize), (5usize, 3usize));
+    let dedup = ctx.tier == Tier::Thorough;
+    let pt = pair_table(&al);
+    let zseqs = all_sequences(al.zspec.len() as u8, max_z);
+    let hseqs = all_sequences(al.hspec.len() as u8, max_h);
+    let mut report = Report::new();
+    let mut exhaustive = true;
+    let mut total = Acc::default();
+
+    // ---- phase A: every zone-file sequence: state key, order-equivalence class
+    struct PA {
+        /// state key -> (smallest sequence index, members)
+        states: HashMap<u64, (u32, u64)>,
+        /// class key -> (dump hash, smallest sequence index) for each distinct dump
+        classes: HashMap<Vec<u8>, Vec<(u64, u32)>>,
+        ops: u64,
+        panics: Vec<u32>,
+    }
+    let parts = par_fold(
+        zseqs.len(),
+        ctx.threads,
+        ctx.seed,
+        || PA { states: HashMap::new(), classes: HashMap::new(), ops: 0, panics: vec![] },
+        |pa, i| {
+            let zseq = &zseqs[i];
+            let Ok(m) = impl_merge(&al, zseq, &[], &mut pa.ops) else {
+                pa.panics.push(i as u32);
+                return;
+            };
+            let idump = impl_dump(&al, &m.zones);
+            let ih = fnv_str(&idump);
+            let key = if dedup {
+                let rdump = ref_dump(&ref_config(&al, zseq, &[]));
+                ih ^ fnv_str(&rdump).rotate_left(17)
+            } else {
+                i as u64
+            };
+            let e = pa.states.entry(key).or_insert((i as u32, 0));
+            e.0 = e.0.min(i as u32);
+            e.1 += 1;
+            let ck = class_key(&al, zseq);
+            let v = pa.classes.entry(ck).or_default();
+            match v.iter_mut().find(|(h, _)| *h == ih) {
+                Some(x) => x.1 = x.1.min(i as u32),
+                None => v.push((ih, i as u32)),
+            }
+        },
+    );
+    let mut states: HashMap<u64, (u32, u64)> = HashMap::new();
+    let mut classes: HashMap<Vec<u8>, Vec<(u64, u32)>> = HashMap::new();
+    for p in parts {
+        total.ops += p.ops;
+        for i in p.panics {
+            total.keep.count("panic", None, 1);
+            total.keep.add("panic", None, zseqs[i as usize].len(), seq_ids(&al, &zseqs[i as usize], &[]), format!("{}: merging panicked", seq_ids(&al, &zseqs[i as usize], &[])), config_replay(&al, &zseqs[i as usize], &[]));
+        }
+        for (k, (rep, n)) in p.states {
+            let e = states.entry(k).or_insert((rep, 0));
+            e.0 = e.0.min(rep);
+            e.1 += n;
+        }
+        for (ck, v) in p.classes {
+            let t = classes.entry(ck).or_default();
+            for (h, i) in v {
+                match t.iter_mut().find(|(hh, _)| *hh == h) {
+                    Some(x) => x.1 = x.1.min(i),
+                    None => t.push((h, i)),
+                }
+            }
+        }
+    }
+    // differential: every class must have one dump
+    let mut class_list: Vec<(&Vec<u8>, &Vec<(u64, u32)>)> = classes.iter().collect();
+    class_list.sort();
+    let n_classes = class_list.len();
+    let mut diff_violations = 0u64;
+    let classes_with_permutations: u64 = {
+        // class sizes (to know in how many classes a permutation exists at all)
+        let mut size: HashMap<Vec<u8>, u32> = HashMap::new();
+        for z in &zseqs {
+            *size.entry(class_key(&al, z)).or_insert(0) += 1;
+        }
+        size.values().filter(|n| **n > 1).count() as u64
+    };
+    for (_ck, dumps) in class_list {
+        if dumps.len() <= 1 {
+            continue;
+        }
+        diff_violations += 1;
+        let mut d = dumps.clone();
+        d.sort_by_key(|x| x.1);
+        let (a, b) = (&zseqs[d[0].1 as usize], &zseqs[d[1].1 as usize]);
+        let mut ops = 0;
+        let (da, db) = match (impl_merge(&al, a, &[], &mut ops), impl_merge(&al, b, &[], &mut ops)) {
+            (Ok(x), Ok(y)) => (impl_dump(&al, &x.zones), impl_dump(&al, &y.zones)),
+            _ => continue,
+        };
+        // slug: both orders are 2-file sequences and one of them is a minimal witness of the wildcard defect
+        let slug = if a.len() == 2 && b.len() == 2 {
+            [a, b].iter().find_map(|s| slug_for(&al, "permutation-differential", s, &[]))
+        } else {
+            let known = attributed_slug(&pt, "wildcard-union", a).or(attributed_slug(&pt, "wildcard-union", b));
+            let only_wild = da.lines().filter(|l| !l.starts_with("*.") && !l.is_empty()).eq(db.lines().filter(|l| !l.starts_with("*.") && !l.is_empty()));
+            if only_wild { known } else { None }
+        };
+        total.keep.count("permutation-differential", slug, 1);
+        if total.keep.wants("permutation-differential", slug, a.len()) {
+            total.keep.add(
+                "permutation-differential",
+                slug,
+                a.len(),
+                format!("{} vs {}", seq_ids(&al, a, &[]), seq_ids(&al, b, &[])),
+                format!("merging {} and the order-equivalent {} give different states: {:?} vs {:?}", seq_ids(&al, a, &[]), seq_ids(&al, b, &[]), da, db),
+                json!({"kind": "permutation", "a": config_replay(&al, a, &[]), "b": config_replay(&al, b, &[])}),
+            );
+        }
+    }
+
+    // ---- phase B: hosts sequences (Hosts::merge against last-writer-wins), distinct states
+    let mut hstates: BTreeMap<u64, (u32, u64)> = BTreeMap::new();
+    for (i, hseq) in hseqs.iter().enumerate() {
+        let key = if dedup {
+            let mut ops = 0;
+            match impl_merge(&al, &[], hseq, &mut ops) {
+                Ok(m) => {
+                    let mut hm = HostsMap::new();
+                    for h in hseq {
+                        apply_hosts_file(&mut hm, &al.hspec[*h as usize]);
+                    }
+                    fnv_str(&hosts_dump(&m.hosts).join("\n")) ^ fnv_str(&hosts_ref_dump(&hm).join("\n")).rotate_left(17)
+                }
+                Err(()) => u64::MAX - i as u64,
+            }
+        } else {
+            i as u64
+        };
+        let e = hstates.entry(key).or_insert((i as u32, 0));
+        e.1 += 1;
+    }
+    let mut zreps: Vec<u32> = states.values().map(|x| x.0).collect();
+    zreps.sort();
+    let hreps: Vec<u32> = {
+        let mut v: Vec<u32> = hstates.values().map(|x| x.0).collect();
+        v.sort();
+        v
+    };
+
+    // ---- phase C: every distinct zone state x every distinct hosts state x every question
+    let n_cfg = zreps.len() * hreps.len();
+    let stop = std::sync::atomic::AtomicBool::new(false);
+    let parts = par_fold(n_cfg, ctx.threads, ctx.seed, Acc::default, |acc, i| {
+        if stop.load(std::sync::atomic::Ordering::Relaxed) {
+            return;
+        }
+        if i % 256 == 0 && ctx.elapsed() > cap {
+            stop.store(true, std::sync::atomic::Ordering::Relaxed);
+            return;
+        }
+        let z = &zseqs[zreps[i / hreps.len()] as usize];
+        let h = &hseqs[hreps[i % hreps.len()] as usize];
+        handle_config(&al, &pt, acc, z, h);
+    });
+    for p in parts {
+        merge_acc(&mut total, p);
+    }
+    if stop.load(std::sync::atomic::Ordering::Relaxed) {
+        exhaustive = false;
+        report.extra.insert("cap_hit_in".into(), json!("phase C (configurations x questions)"));
+    }
+
+    // ---- loader level
+    let lc = loader_contents();
+    let cases = loader_cases();
+    let root = work_dir("c12");
+    let rt = match tokio::runtime::Builder::new_current_thread().enable_all().build() {
+        Ok(r) => r,
+        Err(e) => {
+            eprintln!("C12: machinery error: tokio runtime: {e}");
+            return 2;
+        }
+    };
+    let mut loader_run = 0u64;
+    let mut loader_lookups = 0u64;
+    let mut loader_raw_differs = 0u64;
+    let mut loader_hist: BTreeMap<String, u64> = BTreeMap::new();
+    for (k, c) in cases.iter().enumerate() {
+        if ctx.elapsed() > cap + 15.0 {
+            exhaustive = false;
+            report.extra.insert("cap_hit_in_loader_after_cases".into(), json!(k));
+            break;
+        }
+        match run_loader_case(&lc, c, &root, k, &rt) {
+            Err(e) => {
+                let _ = std::fs::remove_dir_all(&root);
+                eprintln!("C12: machinery error in loader case: {e}");
+                return 2;
+            }
+            Ok(o) => {
+                loader_run += 1;
+                loader_lookups += o.lookups;
+                if o.raw_order_differs {
+                    loader_raw_differs += 1;
+                }
+                *loader_hist.entry(format!("loader:{}", c.mode)).or_insert(0) += 1;
+                let only_soa = !o.load_failed && o.mismatches.iter().all(|m| m.clause == "soa-record-set");
+                let mut seen: BTreeSet<String> = BTreeSet::new();
+                let n_files = c.files.len() + c.dirs.iter().map(|d| d.len()).sum::<usize>();
+                for m in &o.mismatches {
+                    let (clause, slug) = loader_clause(m);
+                    let slug = if only_soa { slug } else { None };
+                    if !seen.insert(clause.clone()) {
+                        continue;
+                    }
+                    total.keep.count(&clause, slug, 1);
+                    if total.keep.wants(&clause, slug, n_files) {
+                        total.keep.add(
+                            &clause,
+                            slug,
+                            n_files,
+                            describe_loader_case(c),
+                            format!("{} -> {}", describe_loader_case(c), m.detail),
+                            loader_case_value(c),
+                        );
+                    }
+                }
+                if total.samples.len() < 6 && (k == 7 || k == 200) {
+                    total.samples.push(json!({"loader_case": describe_loader_case(c), "acceptable_orders": acceptable_orders(c).iter().map(|o| o.iter().map(|i| c.names[*i]).collect::<Vec<_>>()).collect::<Vec<_>>(), "mismatches": o.mismatches.len()}));
+                }
+            }
+        }
+    }
+    let _ = std::fs::remove_dir_all(&root);
+    let _ = std::fs::remove_dir(Path::new(VERIF_ROOT).join(".work"));
+
+    // fixed samples
+    for (z, h) in [(vec![0u8, 3], vec![0u8]), (vec![11u8, 12, 8], vec![1u8, 4])] {
+        let rc = ref_config(&al, &z, &h);
+        let (q, qt) = (dn("nothere.ex."), QueryType::Record(RecordType::A));
+        let mut ops = 0;
+        if let Ok(m) = impl_merge(&al, &z, &h, &mut ops) {
+            total.samples.push(json!({
+                "configuration": seq_ids(&al, &z, &h),
+                "question": format!("{} {}", show_name(&q), qt),
+                "union_answer": show_ref(&ref_answer(&rc, &q, qt).1),
+                "implementation": m.zones.resolve(&q, qt).map(|(_, r)| show_zone_result(&r)),
+            }));
+        }
+    }
+
+    let mut hist: BTreeMap<String, u64> = total.hist.iter().map(|(k, v)| (format!("lookup:{k}"), *v)).collect();
+    hist.extend(loader_hist);
+    report.evaluations = total.lookups + loader_lookups;
+    report.states = total.configs + loader_run;
+    report.transitions = total.ops + loader_run;
+    report.traces_validated = total.configs + loader_run;
+    report.distinct_nontrivial = total.nontrivial;
+    report.rule = format!(
+        "every sequence of 0..{max_z} zone files of the 14-file alphabet is merged with Zones::insert_merge ({} sequences){}, every sequence of 0..{max_h} of the 5 hosts files with Hosts::merge ({} sequences); every (zone state x hosts state) pair is completed with insert_merge(hosts.into()) and asked all {} questions; a configuration is non-trivial when at least two files (zone or hosts) contribute to the same apex, i.e. a real merge happened; configurations are distinct by construction (quick) or by the de-duplication key (thorough)",
+        zseqs.len(),
+        if dedup { " and de-duplicated on (canonical sorted dump of the merged Zones, dump of the reference union)" } else { "" },
+        hseqs.len(),
+        al.questions.len()
+    );
+    report.samples = total.samples.drain(..).take(6).collect();
+    report.bounds = json!({
+        "max_zone_files": max_z,
+        "max_hosts_files": max_h,
+        "zone_file_sequences": zseqs.len(),
+        "hosts_file_sequences": hseqs.len(),
+        "distinct_zone_states": zreps.len(),
+        "distinct_hosts_states": hreps.len(),
+        "configurations_evaluated": total.configs,
+        "questions_per_configuration": al.questions.len(),
+        "zone_files": al.zspec.iter().zip(al.ztext.iter()).map(|(s, t)| json!({"id": s.id, "text": t})).collect::<Vec<_>>(),
+        "hosts_files": al.hspec.iter().zip(al.htext.iter()).map(|(s, t)| json!({"id": s.id, "text": t})).collect::<Vec<_>>(),
+        "order_equivalence_classes": n_classes,
+        "classes_with_more_than_one_sequence": classes_with_permutations,
+        "classes_with_differing_states": diff_violations,
+        "loader_cases": cases.len(),
+        "loader_cases_run": loader_run,
+        "loader_cases_where_raw_directory_order_differs_from_sorted": loader_raw_differs,
+    });
+    report.exhaustive = exhaustive;
+    report.outcome_histogram = hist;
+    report.extra.insert("wildcard_lookups".into(), json!(total.wildcard_lookups));
+    report.extra.insert("violation_counts".into(), json!(total.keep.counts));
+    report.assumptions = vec![
+        "records keep the TTL their own file's SOA minimum gave them at parse time; the merged zone is not re-clamped to the winning SOA's minimum".into(),
+        "explicitly listed files are applied in the order given; directories in sorted order; the order between the group of listed files and each directory is not judged (either accepted)".into(),
+        "`sorted` is byte-wise order of file names (10 < 2 < B < a); a second name set (a1..a4) on which every usual collation agrees is run as well".into(),
+        "no root-apex file carries a SOA (hosts entries go to the non-authoritative root zone, as in the statement)".into(),
+        "answers are compared as multisets (HashMap iteration order is not relied on)".into(),
+    ];
+    report.violations = std::mem::take(&mut total.keep).into_violations();
+    finish(ctx, report)
+}
+
+fn ids_from_replay(al: &Alphabet, v: &Value) -> Result<(Vec<u8>, Vec<u8>), String> {
+    let mut z = Vec::new();
+    for f in v["zone_files"].as_array().cloned().unwrap_or_default() {
+        let id = f["id"].as_str().unwrap_or("");
+        let i = al.zspec.iter().position(|s| s.id == id).ok_or(format!("unknown zone file id {id:?}"))?;
+        if let Some(t) = f["text"].as_str() {
+            if t != al.ztext[i] {
+                return Err(format!("zone file {id} of the replay differs from the alphabet of this harness version"));
+            }
+        }
+        z.push(i as u8);
+    }
+    let mut h = Vec::new();
+    for f in v["hosts_files"].as_array().cloned().unwrap_or_default() {
+        let id = f["id"].as_str().unwrap_or("");
+        let i = al.hspec.iter().position(|s| s.id == id).ok_or(format!("unknown hosts file id {id:?}"))?;
+        h.push(i as u8);
+    }
+    Ok((z, h))
+}
+
+fn replay_merge(al: &Alphabet, v: &Value) -> Result<bool, String> {
+    let (z, h) = ids_from_replay(al, v)?;
+    println!("configuration: {}", seq_ids(al, &z, &h));
+    for i in &z {
+        println!("--- {}\n{}", al.zspec[*i as usize].id, al.ztext[*i as usize]);
+    }
+    for i in &h {
+        println!("--- {}\n{}", al.hspec[*i as usize].id, al.htext[*i as usize]);
+    }
+    let mut st = EvalStats { lookups: 0, wildcard_lookups: 0, hist: BTreeMap::new() };
+    let mut ops = 0;
+    let ms = run_config(al, &z, &h, &mut st, &mut ops);
+    println!("reference union:\n{}", ref_dump(&ref_config(al, &z, &h)));
+    if let Ok(m) = impl_merge(al, &z, &h, &mut ops) {
+        println!("implementation state:\n{}", impl_dump(al, &m.zones));
+    }
+    println!("{} questions asked, {} disagree", st.lookups, ms.len());
+    for m in ms.iter().take(12) {
+        println!("  [{}] {}", m.clause, m.detail);
+    }
+    Ok(ms.is_empty())
+}
+
+pub fn replay(ctx: &Ctx, v: &Value) -> i32 {
+    let al = match build_alphabet() {
+        Ok(a) => a,
+        Err(e) => {
+            eprintln!("C12: machinery error: {e}");
+            return 2;
+        }
+    };
+    let ok = match v["kind"].as_str().unwrap_or("merge") {
+        "merge" => match replay_merge(&al, v) {
+            Ok(b) => b,
+            Err(e) => {
+                eprintln!("C12: {e}");
+                return 2;
+            }
+        },
+        "permutation" => {
+            let (a, b) = match (ids_from_replay(&al, &v["a"]), ids_from_replay(&al, &v["b"])) {
+                (Ok(a), Ok(b)) => (a, b),
+                (Err(e), _) | (_, Err(e)) => {
+                    eprintln!("C12: {e}");
+                    return 2;
+                }
+            };
+            let mut ops = 0;
+            match (impl_merge(&al, &a.0, &a.1, &mut ops), impl_merge(&al, &b.0, &b.1, &mut ops)) {
+                (Ok(x), Ok(y)) => {
+                    let (dx, dy) = (impl_dump(&al, &x.zones), impl_dump(&al, &y.zones));
+                    println!("order 1: {}\n{}", seq_ids(&al, &a.0, &a.1), dx);
+                    println!("order 2: {}\n{}", seq_ids(&al, &b.0, &b.1), dy);
+                    println!("reference union (same for both):\n{}", ref_dump(&ref_config(&al, &a.0, &a.1)));
+                    dx == dy
+                }
+                _ => {
+                    println!("merging panicked");
+                    false
+                }
+            }
+        }
+        "loader" => {
+            let names: &'static [&'static str; 4] = if v["names"][0].as_str() == Some("a1") { &NAMES_PLAIN } else { &NAMES_DESIGN };
+            let to_vec = |x: &Value| -> Vec<usize> { x.as_array().map(|a| a.iter().filter_map(|i| i.as_u64()).map(|i| i as usize).collect()).unwrap_or_default() };
+            let c = LoaderCase {
+                mode: "replayed",
+                names,
+                files: to_vec(&v["files"]),
+                dirs: v["dirs"].as_array().map(|a| a.iter().map(|d| to_vec(d)).collect()).unwrap_or_default(),
+            };
+            let lc = loader_contents();
+            let root = work_dir("c12-replay");
+            let rt = tokio::runtime::Builder::new_current_thread().enable_all().build().expect("tokio runtime");
+            let r = run_loader_case(&lc, &c, &root, 0, &rt);
+            let _ = std::fs::remove_dir_all(&root);
+            match r {
+                Err(e) => {
+                    eprintln!("C12: machinery error: {e}");
+                    return 2;
+                }
+                Ok(o) => {
+                    println!("loader case {}", describe_loader_case(&c));
+                    println!("acceptable application orders: {:?}", acceptable_orders(&c).iter().map(|o| o.iter().map(|i| c.names[*i]).collect::<Vec<_>>()).collect::<Vec<_>>());
+                    println!("{} disagreements with the best-matching order", o.mismatches.len());
+                    for m in o.mismatches.iter().take(12) {
+                        println!("  [{}] {}", m.clause, m.detail);
+                    }
+                    o.mismatches.is_empty()
+                }
+            }
+        }
+        other => {
+            eprintln!("C12: unknown replay kind {other:?}");
+            return 2;
+        }
+    };
+    if ok {
+        println!("replay: property holds on this case");
+        0
+    } else {
+        println!("VIOLATION property={} replay=(replayed case)", ctx.id);
+        1
+    }
+}
+
 pub fn worker(_args: &[String]) -> i32 {
     2
 }
